@@ -71,7 +71,7 @@ def para_breaks(tier: str) -> Iterator[dict[str, Any]]:
     """Hard breaks (both spellings) and tag-adjacent newlines; hazard words right after the kept newline."""
     th = tier == "thorough"
     ctxs = [c for c in (K.K_ALL if th else ["top", "bullet", "quote"]) if c != "task"]
-    firsts = ["qak", "-", "1.", "#", ">qza", "---", "==="] if th else ["qak", "-", "1.", "---"]
+    firsts = ["qak", "-", "1.", "#", ">qza", "---", "===", "1\\.", "\\-", "\\#"] if th else ["qak", "-", "1.", "---", "1\\."]
     for ctx in ctxs:
         for f in firsts:
             a, b = V.toks(3), [f] + V.toks(2, 12)
@@ -193,6 +193,9 @@ TYPO_PARAS: list[tuple[str, list[str]]] = [
     ("quote-link", ["qaa", '"[qza', 'qzb](http://u/q\'s)"', "qab", "qac"]),
     ("quote-tag", ["qaa", '{% qza k="v..." %}', '"qab"', "qac", "qad"]),
     ("quote-em", ["qaa", '"*qab', 'qac*"', "qad", "qae"]),
+    ("dots-then-quote", ['qaa..."qab', 'qac"', "qad...'qae'", "qaf"]),
+    ("quote-then-dots", ['"qaa"...qab', "'qac'...", "qad"]),
+    ("ellipsis-char", ['qaa…"qab"', "qac…'qad'", "“qae”…"]),
 ]
 
 
